@@ -150,12 +150,12 @@ from concurrent.futures import ThreadPoolExecutor as _TPE
 
 def make_cfg(ctx, template, name=None, **subst):
     """copy spec/<template> into the scratch dir with constants replaced:  KEY = value"""
-    src = open(os.path.join(ROOT, 'spec', template)).read()
+    src = open(template if os.path.isabs(template) else os.path.join(ROOT, 'spec', template)).read()
     for k, v in subst.items():
         src, n = _re.subn(r'(?m)^(\s*)%s\s*=.*$' % _re.escape(k), r'\g<1>%s = %s' % (k, v), src)
         if n == 0:
             raise Machinery(f'constant {k} not in {template}')
-    name = name or f'{template[:-4]}_{abs(hash(tuple(sorted(subst.items())))) % 10**8}.cfg'
+    name = name or f'{os.path.basename(template)[:-4]}_{abs(hash(tuple(sorted(subst.items())))) % 10**8}.cfg'
     path = os.path.join(ctx.tmp, name)
     with open(path, 'w') as f:
         f.write(src)
@@ -164,7 +164,7 @@ def make_cfg(ctx, template, name=None, **subst):
 
 def tlc_sharded(ctx, module, template, nshards, part, threads=8, **kw):
     """run one single-worker TLC per shard of the initial states, concurrently; returns list of results"""
-    cfgs = [make_cfg(ctx, template, name=f'{template[:-4]}_s{i}.cfg', Shard=i, NShards=nshards) for i in range(nshards)]
+    cfgs = [make_cfg(ctx, template, name=f'{os.path.basename(template)[:-4]}_s{i}.cfg', Shard=i, NShards=nshards) for i in range(nshards)]
     with _TPE(max_workers=threads) as ex:
         futs = [ex.submit(ctx.tlc, module, c, part=part, workers=1, **kw) for c in cfgs]
         return [f.result() for f in futs]
